@@ -144,6 +144,7 @@ package parsley
 //@   requires wfFS(fs) && sortedOffsets(fs) && e != nil && e.Pos() >= 0
 //@   ensures  r != nil
 //@   ensures  [unknown] (e.Pos() == 0 || int(e.Pos()) >= fs.pos) ==> same(r, e)
+//@   assert_at call:Errorf#1 [format;C06] lastarg[string](0) == "%s at %s"
 //@   assigns  fields[File]()
 
 //@ -- -------------------------------------------------- context, cache, Parser
